@@ -11,42 +11,21 @@ from lib.corr import sym_num
 from lib.gens import log_uniform, rand_unit, rand_rot, rand_trans, rand_rot2, angle, rot_from_axis_angle
 
 concolic.install()
-import numpy.linalg._linalg as _npl  # noqa: E402  (matrix_power looks `inv` up in this module)
 from spatialmath import base, SO2, SE2, SO3, SE3, UnitQuaternion, Twist3, Twist2  # noqa: E402
 
 MOD = 'Traces_C02'
 
-# ------------------------------------------------------------------------------------------------
-# harness-process patches (nothing in /repo changes): np.linalg.det / inv on object arrays.
-# They are a MODEL of NumPy (external code), as DESIGN.md section 6 says: det = the determinant polynomial,
-# inv = the exact inverse adj(A)/det(A).  Float arrays go to the original routines.
-_np_det, _np_inv = np.linalg.det, _npl.inv
-
-
-def _det(a):
-    aa = np.asarray(a)
-    if aa.dtype == object:
-        return sympy.Matrix(aa.tolist()).det(method='berkowitz')
-    return _np_det(a)
-
-
-def _inv(a):
-    aa = np.asarray(a)
-    if aa.dtype == object:
-        return np.array(sympy.Matrix(aa.tolist()).inv(method='ADJ').tolist(), dtype=object)
-    return _np_inv(a)
-
-
-np.linalg.det = _det
-np.linalg.inv = _inv
-_npl.inv = _inv
+# No NumPy patches are needed any more: since /repo fbf47d0 a negative power is the positive power of the class's
+# closed-form inverse, so `X ** n` runs on symbols for every n (np.linalg.matrix_power of an object array, n >= 0).
+# A change that re-introduces np.linalg.inv on that path makes the traces fail (fail-soft: finding trace:<name>).
+_np_det = np.linalg.det
 
 # ------------------------------------------------------------------------------------------------
 # the five group classes: (name, class, input shape, "has a constant last row")
 CLASSES = [('SO2', SO2, 'M22', False), ('SE2', SE2, 'M33', True), ('SO3', SO3, 'M33', False), ('SE3', SE3, 'M44', True)]
-# exponents traced symbolically (T-sym); the negative ones are rational functions (adjugate / determinant) whose
-# size grows quickly, so they stop earlier for the larger shapes.  T-num covers every |n| <= 8.
-NEG = {'SO2': 4, 'SE2': 3, 'SO3': 2, 'SE3': 2, 'UQ': 3}
+# exponents traced symbolically (T-sym): -4..4 for the pose classes (polynomials, since the negative powers use the
+# closed-form inverse), -3..3 for UnitQuaternion (nested normalisations).  T-num covers every |n| <= 8.
+NEG = {'SO2': 4, 'SE2': 4, 'SO3': 4, 'SE3': 4, 'UQ': 3}
 POS = {'SO2': 4, 'SE2': 4, 'SO3': 4, 'SE3': 4, 'UQ': 3}
 
 
@@ -115,7 +94,7 @@ def sample_group(shape_kind, rng):
 
 
 def well_conditioned(shape, rng):
-    """generic (non-group) matrix with |det of the leading block| >= 0.2: the negative powers divide by it"""
+    """generic (non-group) matrix of moderate size and conditioning for the T-num runs of X**n, |n| <= 8"""
     n = shape[0]
     while True:
         M = rng.normal(size=shape) * 10 ** rng.uniform(-0.3, 0.3)
@@ -171,9 +150,8 @@ def build(ctx):
         tr(f'tr_{cn}_inv_of_mul', [X, Y], lambda x, y, P=P: A((P(x) * P(y)).inv()), sampler=smp2)
         tr(f'tr_{cn}_mul_of_inv', [X, Y], lambda x, y, P=P: A(P(y).inv() * P(x).inv()), sampler=smp2)
         for n in pows(cn):
-            smp = (lambda sh: lambda rng: [well_conditioned(shape_of[sh], rng)])(sh) if n < 0 else None
-            tr(f'tr_{cn}_pow_{pname(n)}', [X], lambda x, P=P, n=n: A(P(x) ** n), sampler=smp, tol=1e-8 if n < 0 else 1e-11)
-        # hand model of np.linalg.matrix_power (iterated product; exact inverse for a negative exponent), T-num for |n| <= 8
+            tr(f'tr_{cn}_pow_{pname(n)}', [X], lambda x, P=P, n=n: A(P(x) ** n), tol=1e-10)
+        # hand model of SMPose.__pow__ (iterated product; closed-form inverse first for a negative exponent), T-num, |n| <= 8
         for n in range(-8, 9):
             smp = (lambda sh: lambda rng: [well_conditioned(shape_of[sh], rng)])(sh)
             g.model(f'm_{cn}_pow_{pname(n)}', [X], sh, coq=f'SM.Model.C02_Pow.pw_{cn}_{pname(n)}', module='Model.C02_Pow',
@@ -271,7 +249,10 @@ class MatAlg:
 
     def unwrap_seq(self, x, k):
         assert type(x) is self.cls and len(x) == k, f"result is {type(x).__name__} of length {len(x)}, expected {k}"
-        return [np.asarray(e.A, dtype=float) for e in x]
+        # read the stored values (x.A is the list of matrices), not x[i]: indexing / iterating builds each element
+        # with the CHECKED constructor, which is C07/C10's subject (a value such as (X**-8 * X**8) whose accumulated
+        # orthogonality defect exceeds 100 eps would be rejected there although the law holds to 1e-13)
+        return [np.asarray(a, dtype=float) for a in x.data]
 
     def tiny(self, rng):
         """a very small but NON-identity element: rotation angle and translation of magnitude 1e-12..1e-8 (either may
@@ -329,7 +310,7 @@ class QuatAlg:
 
     def unwrap_seq(self, x, k):
         assert type(x) is UnitQuaternion and len(x) == k, f"result is {type(x).__name__} of length {len(x)}, expected {k}"
-        return [np.asarray(e.vec, dtype=float) for e in x]
+        return [np.asarray(a, dtype=float) for a in x.data]
 
     def tiny(self, rng):
         th = log_uniform(rng, 1e-12, 1e-8) * rng.choice([-1.0, 1.0])
@@ -607,6 +588,37 @@ def oracle_groups(ctx):
             n = int(rng.integers(-8, 9))
             for law, lt, rt in laws(n):
                 check_pair(ctx, alg, law, lt, rt, raw)
+        # X ** n is the n-fold product, also as computed by prod() of a sequence holding n copies (prod() builds with
+        # check=False since /repo b6a19d9; 300 copies of a rotation drift past the 100 eps of the validity test)
+        if isinstance(alg, MatAlg):
+            for i in range(ctx.n(40, 800)):
+                Xr = alg.sample(rng)
+                n = int(rng.integers(2, 9)) if i else 300
+                if i == 0 and alg.n == 2:
+                    Xr = alg.sample(rng)
+                    c, s_ = math.cos(-3.14), math.sin(-3.14)
+                    Xr[:2, :2] = [[c, -s_], [s_, c]]
+                key = f"oracle:{alg.name}:pow-is-prod"
+                ctx.count(key)
+                ctx.case((alg.name, 'pow-is-prod', n, tuple(Xr.flatten())))
+                ref, tm = alg.ident(), alg.tmag(Xr)
+                for _ in range(n):
+                    ref = ref @ Xr
+                    tm = max(tm, alg.tmag(ref))
+                scale = max(1.0, tm)
+                rep = {'class': alg.name, 'law': 'pow-is-prod', 'n': n, 'operand_hex': hexl(Xr)}
+                try:
+                    Pp = alg.unwrap(alg.wrap_seq([Xr] * n).prod())
+                    Pn = alg.unwrap(alg.wrap(Xr) ** n) if n <= 8 else ref
+                    d = max(alg.dist(Pp, Pn), alg.dist(Pp, ref))
+                except Exception as ex:
+                    ctx.fail(f"{key}:raises:{type(ex).__name__}", f"{alg.name}: prod() of {n} copies of X raises {type(ex).__name__}: {ex}",
+                             dict(rep, exception=f"{type(ex).__name__}: {ex}"))
+                    continue
+                ctx.stats['worst:' + key] = max(ctx.stats.get('worst:' + key, 0.0), d / scale)
+                if not d <= TOL * scale:
+                    ctx.fail(f"{key}:value", f"{alg.name}: prod() of {n} copies of X, X**{n} and the {n}-fold product differ by {d:g} "
+                             f"(allowed {TOL:g} * {scale:g})", dict(rep, difference=d))
         # the same laws on sequences (length k against k, k against 1, 1 against k)
         for i in range(ctx.n(40, 800)):
             k = int(rng.integers(2, 5))
@@ -845,9 +857,9 @@ def run(ctx):
                 "Sym==Num / T-num cases (generated and hand models vs implementation) + oracle evaluations of both sides of each "
                 "law on the implementation; a case is distinct by its (class, law, operands) signature")
     ctx.trusted_extra = [
-        "harness patches in props/C02.py: np.linalg.det / np.linalg.inv on OBJECT arrays are computed by SymPy (determinant "
-        "polynomial, adjugate/determinant) -- a model of NumPy, which is external code modelled not verified (DESIGN.md section 6)",
-        "np.linalg.matrix_power modelled as iterated product / exact inverse (Model/C02_Pow.v), tied by T-num for |n| <= 8"]
+        "np.linalg.matrix_power for a NON-NEGATIVE exponent modelled as the iterated product (Model/C02_Pow.v), tied by the symbolic "
+        "traces of X**n (|n| <= 4) and by T-num for |n| <= 8; negative exponents go through the class's own closed-form inverse, "
+        "which is traced (no NumPy inverse and no harness patch of NumPy is involved any more)"]
     with ctx.timed('regenerate'):
         g = build(ctx)
         p = ctx.write_gen(MOD + '.v', gen_text(g))
